@@ -25,7 +25,7 @@ impl<'de> Deserialize<'de> for TwoFloat {
     where
         D: serde::Deserializer<'de>,
     {
-        const FIELDS: &[&str] = &["secs", "nanos"];
+        const FIELDS: &[&str] = &["hi", "lo"];
         enum Field {
             Hi,
             Lo,
